@@ -77,6 +77,11 @@ def analyse_all(repo):
                 cells = {r[0] for r in an.restores}
                 for _, _, cs in an.with_scopes:
                     cells |= set(cs)
+                # a surface manager is reported itself when it does not restore; its users are analysed
+                # as if it did, so that one broken manager gives one report instead of a cascade
+                decl = SURFACE.get(f.key.split("#")[0])
+                if decl is not None and decl[1] in ("manager", "delegate"):
+                    cells = cells | set(decl[0])
                 new_scope[f] = cells
         new_exposed = {f: set(an.exposed) for f, an in analyses.items() if an.exposed}
         new_must = {f: set(an.must_rebind) for f, an in analyses.items() if an.must_rebind}
